@@ -442,3 +442,45 @@ def r5(cx):
                          "query-wide conjunction, and chunks that satisfy only one branch are pruned" % (sp, var, "" if into else " into something other than that node's `input`"), [sp])
         else:
             cx.passed(fk, "descends-single-input-nodes-only", [h["span"]], "%d descents" % n_rec)
+
+
+@rule("C12", "R6", "a chunk's statistics are only what was recorded for that chunk: inside the library the `column_stats` of a catalog entry is set at registration (to the empty map) and "
+      "nowhere else - nothing assigns it, borrows it mutably or builds an entry with statistics taken or combined from other entries (an envelope over sources that have statistics "
+      "says nothing about the rows of a source that has none, and the merged chunk is pruned for values only that source holds)")
+def r6(cx):
+    from engine import mir as M
+    from engine.program import named_parent
+    ALLOWED = {"metadata::s3::ObjectStoreMetadataClient::atomic_register_chunk": "registration: HashMap::new()"}
+    n = 0
+    for k in cx.prog.fn_keys(r"^(<)?(metadata|compactor|sharding|ingester|query)::"):
+        b = cx.body(k)
+        if b is None:
+            continue
+        p = named_parent(k)
+        if "as std::clone::Clone>" in p or "_serde::" in p or "as std::default::Default>" in p:
+            continue  # derived copies / (de)serialisation of an entry as it is
+        for bi, blk in enumerate(b.blocks):
+            if blk.get("cleanup"):
+                continue
+            for si, st in enumerate(blk["stmts"]):
+                lhs_s = M.pl_str(st["lhs"])
+                rv = st["rv"]
+                site = None
+                if st["lhs"].get("p") and lhs_s.endswith(".column_stats"):
+                    site = "assignment"
+                elif rv["k"] == "ref" and rv.get("mut") and M.pl_str(rv["pl"]).endswith(".column_stats"):
+                    site = "mutable borrow"
+                elif rv["k"] == "agg" and (rv.get("adt") or "").endswith("ChunkMetadataExtended") and "column_stats" in (rv.get("fields") or []):
+                    o = M.operand_origins(b, rv["ops"][rv["fields"].index("column_stats")], at=(bi, si))
+                    calls = {x[1][1] for x in o if x[0] == "call"}
+                    n += 1
+                    if p in ALLOWED and calls and all(c.endswith("HashMap::<K, V>::new") or c.endswith("HashMap::<K, V, S>::default") or "HashMap" in c and c.endswith("::new") for c in calls):
+                        cx.passed(p, "column-stats-writer", [b.sp(bi, si)], ALLOWED[p])
+                    else:
+                        cx.violation(p, "column-stats-writer", "%s: %s builds a catalog entry whose statistics come from %s" % (b.sp(bi, si), p.rsplit("::", 1)[1], sorted(calls) or "elsewhere"), [b.sp(bi, si)])
+                    continue
+                if site:
+                    n += 1
+                    cx.violation(p, "column-stats-writer", "%s: %s changes a catalog entry's column statistics (%s) outside registration: statistics that were not computed from the chunk's own rows "
+                                 "make pruning unsound for it" % (b.sp(bi, si), p.rsplit("::", 1)[1], site), [b.sp(bi, si)])
+    cx.floor("constructions / writes of column_stats", n, 1)
